@@ -425,6 +425,15 @@ class AttributeCollection(MutableMapping[int, Attribute]):
             return self
 
         data = data[offset:]
+
+        # RFC 7606 4: an attribute whose declared length runs past the end of the path
+        # attributes is malformed and the UPDATE is handled as treat-as-withdraw.  Slicing
+        # would silently shorten it and hand a truncated value to the decoder, which can
+        # accept it as a valid, shorter attribute.
+        if length > len(data):
+            self.add(TreatAsWithdraw(aid))
+            return self
+
         left = data[length:]
         attribute = data[:length]
 
